@@ -422,6 +422,40 @@ def run_growth_guard(ctx, rnd):
                     ctx.nontriv(('growth', tuple(pattern), size, n))
 
 
+def run_unchanged_and_multifile(ctx, rnd):
+    """(a) a pass that answers OK without changing the file (and keeps its cursor after a success) must not be taken for
+    progress: the run ends after its few candidates; (b) the give-up bound holds for every file of a multi-file set, not only
+    for the first one a pass gets stuck on"""
+    for silent in (False, True):
+        for nn in (1, 2):
+            sc = {'files': [('f0.c', 'abc')], 'rules': [([], 0)],
+                  'passes': [{'key': 1, 'ops': [('same',), ('same',), ('set', 'abc')], 'aos': 0, 'maxt': None, 'newfix': None}],
+                  'cfg': {'N': nn, 'silent': silent, 'no_cache': True, 'maxcrash': 50}, 'sched': [1] * 30, 'max_scheduled': 400, 'max_accepts': 40}
+            o = driver.run_scenario(sc, ctx.tmp)
+            ctx.evaluations += 1
+            ctx.count('unchanged-ok-candidates')
+            if o.diverged or o.passes[0]['executed'] > 3 + nn:
+                ctx.violation('driver-diverged', f'a pass whose candidates equal the file (OK, nothing changed; shaddap={silent}, N={nn}) was run for '
+                              f'{o.passes[0]["executed"] if o.passes else "?"} candidates / did not finish: an unchanged candidate was taken for progress', {'scenario': sc, 'mode': 'each'})
+    for g in (3, 5):
+        for nn in (1, 3):
+            files = [('f0.c', 'abcabc'), ('b/f1.c', 'abcabd'), ('f2.c', 'abcab')]
+            nops = g + nn + 14
+            sc = {'files': files, 'rules': [([('lenge', 0, 6), ('lenge', 1, 6), ('lenge', 2, 5)], 0)],
+                  'passes': [{'key': 1, 'ops': [('del', i % 5) for i in range(nops)], 'aos': 1, 'maxt': None, 'newfix': None}],
+                  'cfg': {'N': nn, 'giveup': g, 'no_cache': True, 'maxcrash': 50}, 'sched': [rnd.randint(0, 7) for _ in range(40)], 'max_scheduled': 2000}
+            o = driver.run_scenario(sc, ctx.tmp)
+            ctx.evaluations += 1
+            ctx.count('giveup:three-files')
+            if o.diverged:
+                ctx.violation('driver-diverged', 'run_pass did not finish within the step budget of the shim', {'scenario': sc, 'mode': 'each'})
+                continue
+            p = o.passes[0]
+            if p['worked'] == 0 and p['code'] == 0 and p['executed'] > 3 * (g + nn + 1):
+                ctx.violation('giveup-bound', f'{p["executed"]} candidates were run on three files without any success (GIVEUP={g}, N={nn}: at most {3 * (g + nn + 1)})',
+                              {'scenario': sc, 'mode': 'each'})
+
+
 def run_stop_passes(ctx, rnd):
     """passes that finish by answering STOP (includes, blank, comments), through the real TestManager.check_pass_result under
     every reporting switch (--shaddap, --die-on-pass-bug, --no-give-up): the pass run ends right after the STOP, long before
@@ -549,6 +583,7 @@ def explore(ctx):
     run_growth_guard(ctx, rnd)
     run_giveup(ctx, rnd)
     run_stop_passes(ctx, rnd)
+    run_unchanged_and_multifile(ctx, rnd)
     ctx.sample({'passes': len(table), 'texts_per_pass': len(small) + len(rn), 'exhaustive_texts': len(ex)})
 
 
